@@ -48,6 +48,7 @@ def parseRaise (s : String) (code : Option Int) : Option Raise :=
   match s, code with
   | "plain", none => some .plain
   | "withCode", some c => some (.withCode c)
+  | "fmtIntArg", some c => some (.fmtIntArg c)
   | "infeas", none => some .infeas
   | "wrappedInfeas", none => some .wrappedInfeas
   | "solCheck", none => some .solCheck
